@@ -1195,15 +1195,21 @@ func readSectionPart(dec *imapwire.Decoder) (part []int, dot bool) {
 
 type fetchLiteralReader struct {
 	*imapwire.LiteralReader
-	ch chan<- struct{}
+	ch  chan<- struct{}
+	err error
 }
 
 func (lit *fetchLiteralReader) Read(b []byte) (int, error) {
+	if lit.err != nil {
+		// The read goroutine owns the connection again, don't touch it
+		return 0, lit.err
+	}
 	n, err := lit.LiteralReader.Read(b)
 	// Unblock the read goroutine on any error, not just on EOF: it is waiting
 	// for the literal to be consumed and is the only one that can notice that
 	// the connection is broken
 	if err != nil && lit.ch != nil {
+		lit.err = err
 		close(lit.ch)
 		lit.ch = nil
 	}
